@@ -16,7 +16,10 @@ SCHEMAS = ["basic", "list", "strict", "iso", "table", "marksx"]
 
 def step_desc(step):
     try:
-        return step.to_json()
+        j = step.to_json()
+        if hasattr(step, "slice"):
+            j = {**j, "slice_open_depths": [step.slice.open_start, step.slice.open_end]}  # to_json omits depths <= 0
+        return j
     except Exception:  # noqa: BLE001
         return repr(step)
 
@@ -76,6 +79,16 @@ def malformed_variants(steps, doc, rnd, n):
         for a, v in zip(fields, vals):
             setattr(st, a, v)
         out.append((f"malformed({kind}) {desc}", st))
+    # slices a peer may send: open deeper than the content's first / last child spine, or negatively
+    from prosemirror.model import Slice
+
+    slc = [s for s in steps if hasattr(s[1], "slice")]
+    rnd.shuffle(slc)
+    for desc, step in slc[:n]:
+        st = _copy.copy(step)
+        s0 = st.slice
+        st.slice = Slice(s0.content, s0.open_start + rnd.choice([-1, 0, 1, 2, 3]), s0.open_end + rnd.choice([-1, 0, 1, 2, 3]))
+        out.append((f"malformed(open depths {st.slice.open_start},{st.slice.open_end}) {desc}", st))
     return out
 
 
